@@ -31,6 +31,7 @@ ENUM_EXHAUSTIVE = {'thorough': 'all sources of length 0-4 of distinct elements (
                                'assignments x condition kinds {pure, stateful, iter} x all T/F words of length n+1'}
 
 VALUES = [0, 1, 2, 'a', None]
+RAWVALUES = [0, 1, 1, 'a', 'a']       # few distinct values: repeats are the point
 CONDV = [True, False, 1, 0, 'x', '', None, 2.5, (), (0,)]
 
 
@@ -84,7 +85,7 @@ def _sized(elem, lo, hi):
 
 def strategy(tier):
     src = st.fixed_dictionaries({
-        'kind': st.sampled_from(['list', 'range', 'iter', 'iter', 'reiterable']),
+        'kind': st.sampled_from(['list', 'range', 'iter', 'iter', 'reiterable', 'rawlist', 'rawiter']),
         'elems': _sized(st.integers(0, len(VALUES) - 1), 0, 7)})
     cond = st.fixed_dictionaries({
         'kind': st.sampled_from(['pure', 'stateful', 'list', 'iter', 'cycle']),
@@ -96,7 +97,7 @@ def strategy(tier):
 
 def valid(case):
     try:
-        return (case['src']['kind'] in ('list', 'range', 'iter', 'reiterable')
+        return (case['src']['kind'] in ('list', 'range', 'iter', 'reiterable', 'rawlist', 'rawiter')
                 and all(0 <= i < len(VALUES) for i in case['src']['elems'])
                 and case['cond']['kind'] in ('pure', 'stateful', 'list', 'iter', 'cycle')
                 and all(0 <= i < len(CONDV) for i in case['cond']['vals'])
@@ -124,14 +125,20 @@ def run_case(case):
     viol = []
     sk, ck = case['src']['kind'], case['cond']['kind']
     n_src = len(case['src']['elems'])
+    raw = sk in ('rawlist', 'rawiter')
     if sk == 'range':
         elems = list(range(n_src))
+    elif raw:
+        # the values themselves, so equal / hash-equal elements repeat (0, 0, 'a', 'a', 1 ...)
+        elems = [RAWVALUES[v % len(RAWVALUES)] for v in case['src']['elems']]
     else:
         elems = [Elem(i, VALUES[v]) for i, v in enumerate(case['src']['elems'])]
     cvals = [CONDV[v] for v in case['cond']['vals']]
     pulls, iters, pred_log = [], [], []
-    if sk == 'list':
+    if sk in ('list', 'rawlist'):
         source = list(elems)
+    elif sk == 'rawiter':
+        source = LogIter(elems, pulls)
     elif sk == 'range':
         source = range(n_src)
     elif sk == 'iter':
@@ -144,10 +151,12 @@ def run_case(case):
         if case['cond'].get('distinct'):
             table = {i: (cvals[i] if i < len(cvals) else False) for i in range(n_src)}
             keyf = (lambda x: x if sk == 'range' else x.i)
+            if raw:
+                raise ValueError('distinct-element enumeration does not use raw sources')
         else:
             # a pure function of the element's value
             def _vkey(x):
-                return repr(x if sk == 'range' else x.v)
+                return repr(x if (sk == 'range' or raw) else x.v)
             tbl = {}
             for i, e in enumerate(elems):
                 tbl.setdefault(_vkey(e), cvals[len(tbl) % len(cvals)] if cvals else None)
@@ -208,7 +217,7 @@ def run_case(case):
             its[side] = None
             return False
         exp = models[side][pos[side]] if pos[side] < len(models[side]) else '<nothing>'
-        if x is not exp and not (sk == 'range' and x == exp and isinstance(exp, int)):
+        if x is not exp and not ((sk == 'range' or raw) and type(x) is type(exp) and x == exp):
             viol.append(V('wrong-element', f'{side}-iterator yielded {x!r} at position {pos[side]}, model expects {exp!r} '
                           f'(model true={model_t!r} false={model_f!r})'))
         pos[side] += 1
@@ -220,13 +229,13 @@ def run_case(case):
         if ck in ('pure', 'stateful'):
             exp_prefix = elems[:len(pred_log)]
             same = len(pred_log) <= n_src and all(
-                (a is b) or (sk == 'range' and a == b) for a, b in zip(pred_log, exp_prefix))
+                (a is b) or ((sk == 'range' or raw) and type(a) is type(b) and a == b) for a, b in zip(pred_log, exp_prefix))
             if not same:
                 viol.append(V('predicate-log', f'predicate evaluated on {pred_log!r}; expected a duplicate-free prefix of {elems!r}'))
             if final and len(pred_log) != n_src:
                 viol.append(V('predicate-log', f'after draining both iterators the predicate was evaluated '
                               f'{len(pred_log)} times for {n_src} elements', 'predicate-count'))
-        if sk in ('iter', 'reiterable'):
+        if sk in ('iter', 'reiterable', 'rawiter'):
             if len(pulls) > n_src or any(a is not b for a, b in zip(pulls, elems)):
                 viol.append(V('source-pulls', f'source delivered {pulls!r}; expected each of {elems!r} at most once, in order'))
             if sk == 'reiterable' and len(iters) > 1:
@@ -265,6 +274,8 @@ def run_case(case):
                                                        and sides not in ('T' * sides.count('T') + 'F' * sides.count('F'),
                                                                          'F' * sides.count('F') + 'T' * sides.count('T')))
     classes = ['src=' + sk, 'cond=' + ck]
+    if raw and len(set(map(repr, elems))) < len(elems):
+        classes.append('repeated-equal-elements')
     if nontrivial:
         classes.append('nontrivial')
     if ck in ('list', 'iter') and len(cvals) != n_src:
